@@ -130,6 +130,65 @@ def update_obligation(n):
                 bound=f"{n} open groups, both scopes, every outcome of each remove/save: a global assignment removes the variable from the save stack of group 0..{n - 1} exactly once each and saves nothing; a local one saves into the innermost group only")
 
 
+# ---------------------------------------------------------------- stubs for TypedVariable::set
+def set_obligation(n):
+    slot = {}
+
+    def env_state_mut(ex, m, args, tys, st, fn, symargs):
+        return [(st, Opaque("state"))]
+
+    def env_getter(ex, m, args, tys, st, fn, symargs):
+        # the variable's mutable getter (a function pointer stored in the TypedVariable): returns the storage slot
+        st.log.append(("getter",))
+        st.slot = Ref(Cell(Opaque("OLD")))
+        return [(st, st.slot)]
+
+    def env_replace(ex, m, args, tys, st, fn, symargs):
+        r, new = args
+        old = ex.deref(r)
+        ex.write_ref(r, new)
+        st.log.append(("replace", getattr(new, "what", repr(new))))
+        return [(st, old)]
+
+    def env_is_empty(ex, m, args, tys, st, fn, symargs):
+        return [(st, tm.B(len(ex.deref(args[0]).fields) == 0))]
+
+    def env_recycle(ex, m, args, tys, st, fn, symargs):
+        st.log.append(("recycle", getattr(args[1], "what", repr(args[1]))))
+        return [(st, Agg([]))]
+
+    def env_update(ex, m, args, tys, st, fn, symargs):
+        st.log.append(("update", args[2].tag, getattr(args[3], "what", repr(args[3]))))
+        return [(st, Agg([]))]
+
+    def post(a, ret, st):
+        log = st.log
+        stored = getattr(st, "slot", None)
+        ok_store = stored is not None and getattr(stored.cell.v, "what", None) == "value: opaque T"
+        if n == 0:
+            ok = log == [("getter",), ("replace", "value: opaque T"), ("recycle", "OLD")]
+            return tm.B(ok and ok_store)
+        ok = (len(log) == 3 and log[0] == ("getter",) and log[1] == ("replace", "value: opaque T")
+              and log[2][0] == "update" and log[2][2] == "OLD")
+        if not (ok and ok_store):
+            return tm.FALSE
+        return tm.eq(log[2][1], a["scope"].tag)
+
+    return dict(engine="B", name=f"c01_variable_set_{n}_groups", crates=CR, fn=("texlang", "set", "TypedVariable", None),
+                args=[("self", "&TypedVariable"), ("input", "&mut opaque ExecutionInput"), ("scope", "Scope"), ("value", "opaque T")],
+                env_models=[(r"^(?:streams::)?ExecutionInput::<S>::state_mut$", env_state_mut),
+                            (r"^(?:move|copy) _\d+$", env_getter),
+                            (r"^std::mem::replace::<T>$", env_replace),
+                            (r"^(?:streams::)?ExecutionInput::<S>::groups$", env_groups(n)),
+                            (r"^core::slice::<impl \[.*\]>::is_empty$", env_is_empty),
+                            (r"^<T as SupportedType>::recycle::<S>$", env_recycle),
+                            (r"^<T as SupportedType>::update_save_stack::<S>$", env_update)],
+                post=post, post_state=True,
+                witnesses=[("global scope", lambda a: tm.eq(a["scope"].tag, I(1)))],
+                funcs=["texlang::variable::TypedVariable::set (generic MIR; the getter function pointer, mem::replace, the save stack and recycle/update_save_stack replaced by logging stubs)"],
+                bound=f"{n} open groups, both scopes: the new value is stored through the variable's getter; the overwritten value goes to update_save_stack with the same scope iff a group is open, else it is recycled")
+
+
 PROP = {
     "title": "Group scoping: local assignments undone, global ones survive (mechanism level)",
     "level_text": (
@@ -143,7 +202,7 @@ PROP = {
     "explanation": "See the module docstring of props/C01.py.",
     "outside": [
         "TeX-level histories through VM::run (\\\\count, \\\\def, \\\\let, \\\\catcode, fonts, \\\\global/\\\\globaldefs prefixes): NOT decided",
-        "TypedVariable::set and SaveStackMap::restore call variable getters through function pointers (not executable by the MIR engine); SaveStackMap::save's keep-the-first-value rule is std HashMap::entry",
+        "SaveStackMap::restore (iterates a std HashMap and calls getters through function pointers) and SaveStackMap::save's keep-the-first-value rule (std HashMap::entry); VM::begin_group / VM::end_group (three calls each; end_group builds error values)",
         "prefix::Component (\\\\global consumes exactly one assignment): token-level, VM-bound",
         "more than 3 open groups for the protocol obligations, histories beyond the C20 bounds",
     ],
@@ -160,5 +219,6 @@ PROP = {
                  funcs=["texlang::command::map::Map::end_group (MIR; containers stubbed, each end_group returning Ok or Err arbitrarily)"],
                  bound="closes a group in both maps; Ok iff both succeed; an error of the first is returned before the second is touched"),
             update_obligation(1), update_obligation(2), update_obligation(3),
+            set_obligation(0), set_obligation(2),
         ]),
 }
